@@ -221,5 +221,5 @@ def cases(draw):
 
 
 PARTS = [
-    Part('files', 'hyp', run_case, strategy=cases(), quick=800, thorough=48000, quick_shards=8),
+    Part('files', 'hyp', run_case, strategy=cases(), quick=1200, thorough=48000, quick_shards=8),
 ]
